@@ -125,7 +125,10 @@ async fn serve(victim: &Peer, room: Uid, items: &[Offered], rng: &mut StdRng) ->
     for o in items {
         match &o.item {
             Item::N(n) => {
-                let k = (n._entity.clone(), day_of(n.mdate));
+                // a malicious serving peer may announce a row under another entity than its own, so that it travels in
+                // the same answer as honest rows of that entity
+                let announced = if matches!(o.kind, "entity-without-right" | "unknown-entity" | "system-entity-through-the-data-path" | "model-violating-json") && rng.gen_bool(0.5) { "0".to_string() } else { n._entity.clone() };
+                let k = (announced, day_of(n.mdate));
                 *days.entry(k.clone()).or_insert(0) += 1;
                 fs.daily_nodes.entry(k).or_default().push(NodeIdentifier {
                     id: n.id,
